@@ -68,6 +68,7 @@
 #include <netinet/in.h>
 #include <netinet/tcp.h>
 #include <poll.h>
+#include <sys/file.h>
 #include <sys/socket.h>
 #include <sys/stat.h>
 #include <unistd.h>
@@ -98,7 +99,7 @@ struct CtxRec
 {
   int role = 0;              // 1 = TLS_server_method, 2 = TLS_client_method, 0 = other
   int verify = 0;            // last SSL_CTX_set_verify mode (default SSL_VERIFY_NONE)
-  long minProto = -1;        // last SSL_CTX_set_min_proto_version argument
+  long minProto = 0;         // effective minimum (SSL_CTX_get_min_proto_version after the last set); 0 = none
   std::string trust = "none"; // none | file | path | file+path | default
   std::string caFile;
   bool cert = false, key = false;
@@ -158,13 +159,21 @@ extern "C" void SSL_CTX_set_verify(SSL_CTX *c, int mode, SSL_verify_cb cb)
 extern "C" long SSL_CTX_ctrl(SSL_CTX *c, int cmd, long larg, void *parg)
 {
   static auto real = realSym<long (*)(SSL_CTX *, int, long, void *)>("SSL_CTX_ctrl");
+  long rc = real(c, cmd, larg, parg);
   if (cmd == SSL_CTRL_SET_MIN_PROTO_VERSION)
   {
+    // the EFFECTIVE minimum: a call the library rejects (rc != 1) changes nothing
     std::lock_guard<std::mutex> g(g_imx);
     auto it = g_ctx.find(c);
-    if (it != g_ctx.end()) { fired("SSL_CTX_set_min_proto_version"); it->second.minProto = larg; }
+    if (it != g_ctx.end())
+    {
+      fired("SSL_CTX_set_min_proto_version");
+      if (rc != 1) fired("SSL_CTX_set_min_proto_version(rejected)");
+      // the EFFECTIVE minimum is what the library reports back (a rejected or ignored number changes nothing)
+      it->second.minProto = real(c, SSL_CTRL_GET_MIN_PROTO_VERSION, 0, nullptr);
+    }
   }
-  return real(c, cmd, larg, parg);
+  return rc;
 }
 extern "C" int SSL_CTX_load_verify_locations(SSL_CTX *c, const char *file, const char *path)
 {
@@ -764,13 +773,14 @@ static bool rawReadUntil(int fd, const char *needle, std::string &acc)
   return false;
 }
 
-enum class PeerKind { Tls, Plain, Garbage, BadHello, Dual };
+enum class PeerKind { Tls, Plain, Garbage, BadHello, Dual, PlainRead };
 static PeerKind peerKind(const std::string &s)
 {
   if (s == "tls") return PeerKind::Tls;
   if (s == "plain") return PeerKind::Plain;
   if (s == "garbage") return PeerKind::Garbage;
   if (s == "badhello") return PeerKind::BadHello;
+  if (s == "plainread") return PeerKind::PlainRead;
   return PeerKind::Dual;
 }
 static std::string garbageBytes(bool framed)
@@ -822,6 +832,28 @@ struct ServerPeer
       ssize_t n = ::recv(c, pk, 1, MSG_PEEK);
       k = (n == 1 && pk[0] == 22) ? PeerKind::Tls : PeerKind::Plain;
       if (n <= 0) { out.err = "no-bytes"; ::close(c); return; }
+      if (k == PeerKind::Plain && http)
+      {
+        // a plaintext HTTP service: whatever arrives in clear is recorded and answered in clear
+        char b[2048];
+        for (int i = 0; i < 32 && out.raw.find("\r\n\r\n") == std::string::npos; ++i)
+        {
+          ssize_t m = ::recv(c, b, sizeof b, 0);
+          if (m <= 0) break;
+          out.raw.append(b, (size_t)m);
+        }
+        if (out.raw.find("\r\n\r\n") != std::string::npos)
+        {
+          out.gotApp = out.raw.find(MARK) != std::string::npos;
+          std::string body = std::string("PONG ") + MARK;
+          std::string r = "HTTP/1.1 200 OK\r\nContent-Type: text/plain\r\nContent-Length: " + std::to_string(body.size()) + "\r\nConnection: close\r\n\r\n" + body;
+          ::send(c, r.data(), r.size(), MSG_NOSIGNAL);
+        }
+        setRecvTimeout(c, 200);
+        while (::recv(c, b, sizeof b, 0) > 0) {}
+        ::close(c);
+        return;
+      }
       if (k == PeerKind::Plain)
       {
         // a plaintext service: read the request line(s), answer in clear
@@ -921,11 +953,12 @@ static void clientPeer(std::uint16_t port, PeerKind kind, const std::string &cce
   setRecvTimeout(c, 2500);
   std::string app = std::string("APP:") + MARK + "\n";
   if (http) app = std::string("GET /c07?m=") + MARK + " HTTP/1.1\r\nHost: localhost\r\nConnection: close\r\n\r\n";
-  if (kind == PeerKind::Plain || kind == PeerKind::Garbage || kind == PeerKind::BadHello)
+  if (kind == PeerKind::Plain || kind == PeerKind::Garbage || kind == PeerKind::BadHello || kind == PeerKind::PlainRead)
   {
-    std::string first = kind == PeerKind::Plain ? app : garbageBytes(kind == PeerKind::BadHello);
-    ::send(c, first.data(), first.size(), MSG_NOSIGNAL);
-    setRecvTimeout(c, 700);
+    // PlainRead: a client that never handshakes and never speaks - it only reads what the server volunteers
+    std::string first = kind == PeerKind::Plain ? app : kind == PeerKind::PlainRead ? std::string() : garbageBytes(kind == PeerKind::BadHello);
+    if (!first.empty()) ::send(c, first.data(), first.size(), MSG_NOSIGNAL);
+    setRecvTimeout(c, kind == PeerKind::PlainRead ? 400 : 700);
     char b[4096];
     for (;;)
     {
@@ -1029,13 +1062,22 @@ struct CellResult
   std::string plan = "?";
   bool connected = false, appdata = false, cleartext = false;
   std::string version = "-";
+  std::string extra;         // further canonical (compared) fields of some cell kinds
   std::string diag;
   std::string line() const
   {
     return "plan=" + plan + " connected=" + bit(connected) + " appdata=" + bit(appdata) + " cleartext=" + bit(cleartext) +
-           " version=" + version + " | " + diag;
+           " version=" + version + extra + " | " + diag;
   }
 };
+
+/// trailing `key=value` tokens of an operation line (optional cell parameters)
+static std::map<std::string, std::string> g_opt;
+static std::string opt(const std::string &k, const std::string &dflt = "")
+{
+  auto it = g_opt.find(k);
+  return it == g_opt.end() ? dflt : it->second;
+}
 
 static void applyEngineOpts(TransportConfig &cfg, const std::string &et, const std::string &batch)
 {
@@ -1099,6 +1141,7 @@ static CellResult runClientCell(const std::vector<std::string> &t)
   cfg.clientTls.caFile = trustFile(trust);
   if (trust == "path") cfg.clientTls.caPath = g_dir + "/emptydir";
   cfg.clientTls.minVersion = (int)minv;
+  if (opt("ciphers") == "seclevel0") cfg.clientTls.ciphers = "ALL:@SECLEVEL=0";
   auto obs = std::make_shared<Obs>();
   auto tr = Transport::tcp(cfg);
   std::string app = std::string("APP:") + MARK + "\n", early = std::string("EARLY:") + MARK + "\n";
@@ -1219,15 +1262,22 @@ static CellResult runServerCell(const std::vector<std::string> &t)
   cfg.serverTls.caFile = trustFile(trust);
   if (trust == "path") cfg.serverTls.caPath = g_dir + "/emptydir";
   cfg.serverTls.minVersion = (int)minv;
+  if (opt("ciphers") == "seclevel0") cfg.serverTls.ciphers = "ALL:@SECLEVEL=0";
+  const bool greet = opt("greet") == "1";
+  std::string greeting = std::string("GREET:") + MARK + "\n";
   if (own == "unreadable") { cfg.serverTls.certFile = g_dir + "/nope.pem"; cfg.serverTls.keyFile = g_dir + "/nope.key"; }
   else if (own != "nocert") { cfg.serverTls.certFile = g_ck[own].certPath; cfg.serverTls.keyFile = g_ck[own].keyPath; }
   auto obs = std::make_shared<Obs>();
   auto tr = Transport::tcp(cfg);
-  tr->onAccept([obs](SessionId, const TransportAddress &)
+  tr->onAccept([&, obs](SessionId s, const TransportAddress &)
                {
-                 std::lock_guard<std::mutex> g(obs->mx);
-                 obs->acceptFired = true;
-                 obs->cv.notify_all();
+                 {
+                   std::lock_guard<std::mutex> g(obs->mx);
+                   obs->acceptFired = true;
+                   obs->cv.notify_all();
+                 }
+                 // a server that greets first: sent at accept(), i.e. BEFORE the TLS handshake of this session has run
+                 if (greet) tr->send(s, greeting.data(), greeting.size());
                });
   tr->onConnect([obs](SessionId, const TransportAddress &)
                 {
@@ -1439,6 +1489,265 @@ static CellResult runHttpServerCell(const std::vector<std::string> &t)
   return r;
 }
 
+// ---- HttpClient URL spellings: hurl <scheme> <form> <verify> <peer>
+//      the URL is <scheme>://<authority by form>/c07?m=MARK with an Authorization header; the peer answers TLS with TLS
+//      and plaintext with plaintext, so whatever the client decides to send in clear is observed.
+static int listenFixed(std::uint16_t port)
+{
+  int ls = ::socket(AF_INET, SOCK_STREAM | SOCK_CLOEXEC, 0);
+  int one = 1;
+  ::setsockopt(ls, SOL_SOCKET, SO_REUSEADDR, &one, sizeof one);
+  sockaddr_in a{};
+  a.sin_family = AF_INET;
+  a.sin_addr.s_addr = htonl(INADDR_LOOPBACK);
+  a.sin_port = htons(port);
+  if (::bind(ls, (sockaddr *)&a, sizeof a) != 0 || ::listen(ls, 8) != 0) { ::close(ls); return -1; }
+  return ls;
+}
+static CellResult runUrlCell(const std::vector<std::string> &t)
+{
+  CellResult r;
+  const std::string &scheme = t[1], &form = t[2], &peer = t[4];
+  bool verify = t[3] == "1";
+  setSystemStore("empty");
+  resetSslLog();
+  const bool noport = form == "noport";
+  // the default ports are a machine-wide resource: one no-port cell at a time, across concurrently running checks
+  int lockFd = -1;
+  if (noport)
+  {
+    lockFd = ::open("/tmp/.c07_default_ports.lock", O_CREAT | O_RDWR | O_CLOEXEC, 0666);
+    if (lockFd >= 0) ::flock(lockFd, LOCK_EX);
+  }
+  struct Unlock { int fd; ~Unlock() { if (fd >= 0) { ::flock(fd, LOCK_UN); ::close(fd); } } } unlock{lockFd};
+  struct Pair { ServerPeer sp; Relay relay; };
+  std::vector<std::unique_ptr<Pair>> pairs;
+  for (std::uint16_t fixed : (noport ? std::vector<std::uint16_t>{443, 80} : std::vector<std::uint16_t>{0}))
+  {
+    auto pr = std::make_unique<Pair>();
+    pr->sp.kind = peerKind(peer);
+    pr->sp.cert = "valid";
+    pr->sp.ceil = TLS1_3_VERSION;
+    pr->sp.http = true;
+    pr->sp.start();
+    if (fixed)
+    {
+      int ls = listenFixed(fixed);
+      if (ls < 0)
+      {
+        pr->sp.finish();
+        for (auto &q : pairs) { q->sp.finish(); q->relay.finish(); }
+        r.plan = "skip";
+        r.extra = " port=-";
+        r.diag = "cannot-bind-" + std::to_string(fixed);
+        return r;
+      }
+      pr->relay.upstream = pr->sp.port;
+      pr->relay.ls = ls;
+      pr->relay.port = fixed;
+      Relay *rp = &pr->relay;
+      pr->relay.th = std::thread([rp] { rp->run(); });
+    }
+    else
+    {
+      pr->relay.start(pr->sp.port);
+    }
+    pairs.push_back(std::move(pr));
+  }
+  std::string P = std::to_string(pairs[0]->relay.port);
+  std::string auth = form == "ipport" ? "127.0.0.1:" + P : form == "nameport" ? "localhost:" + P : form == "userinfo" ? "user:pw@127.0.0.1:" + P
+                   : form == "userat" ? "user@127.0.0.1:" + P : form == "dotname" ? "localhost.:" + P : form == "ip6" ? "[::1]:" + P
+                   : form == "upperhost" ? "LOCALHOST:" + P : "127.0.0.1";
+  std::string url = scheme + "://" + auth + "/c07?m=" + MARK;
+  bool ok = false;
+  std::string reason = "-";
+  {
+    HttpClient::Config hc;
+    hc.connectTimeout = milliseconds(1500);
+    hc.requestTimeout = milliseconds(2000);
+    hc.reuseConnections = false;
+    HttpClient cl(hc);
+    HttpClient::TlsConfig tc;
+    tc.verifyPeer = verify;
+    tc.caFile = verify ? trustFile("right") : "";
+    cl.setTlsConfig(tc);
+    try
+    {
+      auto resp = cl.get(url, {{"Authorization", std::string("Bearer ") + MARK}});
+      ok = resp.statusCode == 200 && resp.body.find("PONG") != std::string::npos;
+      reason = "status" + std::to_string(resp.statusCode);
+    }
+    catch (const std::exception &e)
+    {
+      reason = e.what();
+      for (char &ch : reason) if (ch == ' ' || ch == '\n') ch = '_';
+    }
+  }
+  bool accepted = false, clear = false, hs = false;
+  int ver = 0;
+  std::string onport = "-";
+  for (auto &q : pairs)
+  {
+    q->sp.finish();
+    q->relay.finish();
+    if (q->relay.accepted) { accepted = true; onport = std::to_string(q->relay.port); }
+    clear = clear || q->relay.sawClear(true, ok) || q->sp.out.raw.find(MARK) != std::string::npos;
+    if (q->sp.out.hsOk) { hs = true; ver = q->sp.out.version; }
+  }
+  auto v = sslSnapshot();
+  r.connected = ok;
+  r.appdata = ok;
+  r.plan = reason.find("Invalid_URL_format") != std::string::npos ? "rejected" : !v.empty() ? planStr(v.back().first, v.back().second) : accepted ? "plain" : "noconn";
+  r.cleartext = clear;
+  r.version = (hs && ok) ? verName(ver) : "-";
+  r.extra = " port=" + (noport ? onport : std::string("explicit"));
+  r.diag = "why=" + reason.substr(0, 100);
+  return r;
+}
+
+// ---- HttpClient connection cache across schemes: hreuse <first> <second> <verify>
+//      ONE client, two requests to the same host:port, the peer serves plaintext and TLS on that port (keep-alive).
+struct MultiPeer
+{
+  int ls = -1;
+  std::uint16_t port = 0;
+  std::thread acc;
+  std::atomic<bool> stop{false};
+  std::mutex mx;
+  std::vector<std::thread> workers;
+  struct Conn { bool tls = false; std::string clear; std::vector<std::string> paths; };
+  std::vector<std::shared_ptr<Conn>> conns;
+
+  void start()
+  {
+    ls = listenLoopback(port);
+    acc = std::thread([this]
+                      {
+                        PeerScope ps;
+                        while (!stop.load())
+                        {
+                          int c = acceptTimeout(ls, 100, stop);
+                          if (c < 0) continue;
+                          auto cn = std::make_shared<Conn>();
+                          std::lock_guard<std::mutex> g(mx);
+                          conns.push_back(cn);
+                          workers.emplace_back([this, c, cn] { PeerScope p2; serve(c, cn); });
+                        }
+                      });
+  }
+  static std::string pathOf(const std::string &req)
+  {
+    size_t a = req.find(' '), b = req.find(' ', a + 1);
+    return (a == std::string::npos || b == std::string::npos) ? "?" : req.substr(a + 1, b - a - 1);
+  }
+  void serve(int c, std::shared_ptr<Conn> cn)
+  {
+    setRecvTimeout(c, 1500);
+    char pk = 0;
+    if (::recv(c, &pk, 1, MSG_PEEK) != 1) { ::close(c); return; }
+    std::string body = std::string("PONG ") + MARK;
+    std::string resp = "HTTP/1.1 200 OK\r\nContent-Type: text/plain\r\nContent-Length: " + std::to_string(body.size()) + "\r\nConnection: keep-alive\r\n\r\n" + body;
+    SSL_CTX *ctx = nullptr;
+    SSL *ssl = nullptr;
+    if (pk == 22)
+    {
+      ctx = peerCtx(true, TLS1_3_VERSION);
+      SSL_CTX_use_certificate(ctx, g_ck["valid"].x);
+      SSL_CTX_use_PrivateKey(ctx, g_ck["valid"].k);
+      ssl = SSL_new(ctx);
+      SSL_set_fd(ssl, c);
+      if (SSL_accept(ssl) != 1) { SSL_free(ssl); SSL_CTX_free(ctx); ::close(c); return; }
+      std::lock_guard<std::mutex> g(mx);
+      cn->tls = true;
+    }
+    std::string acc;
+    char b[4096];
+    for (;;)
+    {
+      size_t e = acc.find("\r\n\r\n");
+      if (e != std::string::npos)
+      {
+        {
+          std::lock_guard<std::mutex> g(mx);
+          cn->paths.push_back(pathOf(acc));
+        }
+        acc.erase(0, e + 4);
+        if (ssl) SSL_write(ssl, resp.data(), (int)resp.size());
+        else ::send(c, resp.data(), resp.size(), MSG_NOSIGNAL);
+        continue;
+      }
+      long n = ssl ? SSL_read(ssl, b, sizeof b) : ::recv(c, b, sizeof b, 0);
+      if (n <= 0) break;
+      acc.append(b, (size_t)n);
+      if (!ssl) { std::lock_guard<std::mutex> g(mx); cn->clear.append(b, (size_t)n); }
+    }
+    if (ssl) { SSL_shutdown(ssl); SSL_free(ssl); SSL_CTX_free(ctx); }
+    ::close(c);
+  }
+  void finish()
+  {
+    stop.store(true);
+    if (acc.joinable()) acc.join();
+    for (auto &w : workers) if (w.joinable()) w.join();
+    if (ls >= 0) ::close(ls);
+    ls = -1;
+  }
+};
+static std::string runReuseCell(const std::vector<std::string> &t)
+{
+  const std::string &first = t[1], &second = t[2];
+  bool verify = t[3] == "1";
+  setSystemStore("empty");
+  resetSslLog();
+  MultiPeer mp;
+  mp.start();
+  std::string r1 = "err", r2 = "err", why;
+  {
+    HttpClient::Config hc;
+    hc.connectTimeout = milliseconds(2000);
+    hc.requestTimeout = milliseconds(2500);
+    hc.reuseConnections = true;
+    HttpClient cl(hc);
+    HttpClient::TlsConfig tc;
+    tc.verifyPeer = verify;
+    tc.caFile = verify ? trustFile("right") : "";
+    cl.setTlsConfig(tc);
+    std::string base = "://127.0.0.1:" + std::to_string(mp.port);
+    auto go = [&](const std::string &scheme, const char *path, std::string &res)
+    {
+      try
+      {
+        auto resp = cl.get(scheme + base + path + "?m=" + MARK, {{"Authorization", std::string("Bearer ") + MARK}});
+        res = std::to_string(resp.statusCode);
+      }
+      catch (const std::exception &e)
+      {
+        why += std::string(e.what()).substr(0, 60) + ";";
+      }
+    };
+    go(first, "/c07a", r1);
+    go(second, "/c07b", r2);
+  }
+  mp.finish();
+  int n = 0;
+  std::string secondOn = "-";
+  bool leak = false;
+  for (auto &cn : mp.conns)
+  {
+    ++n;
+    for (auto &p : cn->paths)
+    {
+      bool isA = p.find("/c07a") == 0, isB = p.find("/c07b") == 0;
+      if (isB) secondOn = cn->tls ? "tls" : "plain";
+      if (!cn->tls && ((isA && first == "https") || (isB && second == "https"))) leak = true;
+    }
+    if (!cn->tls && cn->clear.find("/c07b") != std::string::npos && second == "https") leak = true;
+    if (!cn->tls && cn->clear.find("/c07a") != std::string::npos && first == "https") leak = true;
+  }
+  for (char &ch : why) if (ch == ' ' || ch == '\n') ch = '_';
+  return "r1=" + r1 + " r2=" + r2 + " conns=" + std::to_string(n) + " second_on=" + secondOn + " secure_in_clear=" + bit(leak) + " | why=" + why;
+}
+
 // ======================================================================================= main loop
 int main(int argc, char **argv)
 {
@@ -1464,6 +1773,13 @@ int main(int argc, char **argv)
   while (std::getline(std::cin, line))
   {
     auto t = vh::split(line);
+    g_opt.clear();
+    while (!t.empty() && t.back().find('=') != std::string::npos)
+    {
+      auto kv = t.back();
+      g_opt[kv.substr(0, kv.find('='))] = kv.substr(kv.find('=') + 1);
+      t.pop_back();
+    }
     std::string out;
     try
     {
@@ -1473,6 +1789,8 @@ int main(int argc, char **argv)
       else if (t[0] == "srv" && t.size() == 13) out = runServerCell(t).line();
       else if (t[0] == "http" && t.size() == 8) out = runHttpCell(t).line();
       else if (t[0] == "hsrv" && t.size() == 7) out = runHttpServerCell(t).line();
+      else if (t[0] == "hurl" && t.size() == 5) out = runUrlCell(t).line();
+      else if (t[0] == "hreuse" && t.size() == 4) out = runReuseCell(t);
       else if (t[0] == "fires" && t.size() == 1)
       {
         std::lock_guard<std::mutex> g(g_imx);
